@@ -1,8 +1,8 @@
 SPECIFICATION GenSpec
 CONSTANTS
   NPages = 2
-  Readers = {1, 2}
-  MaxWrites = 3
+  Readers = {1}
+  MaxWrites = 2
   MaxCkpt = 3
   ReaderPoints = {"idle"}
   CanonicalPages = TRUE
